@@ -224,6 +224,40 @@ def _control_r5() -> bool:
     return control()
 
 
+def rule_r6(ctx):
+    """object-typed fields whose cells are mutable Python objects (declared default is a list / dict): pandas copies — copy(deep=True),
+    which is what copy.deepcopy does for a frame, sort_values, concat, boolean indexing — copy the references, never the objects.
+    Unless the list class copies such cells itself, every result "documented as a copy" shares them with its input."""
+    M = ctx.M
+    insts = []
+    hook = TIMEDLIST + ".__deepcopy__" in M.funcs
+    seen = set()
+    for ic in sorted(c for c in M.classes if CTL not in c and M.class_kind(c) == "item"):
+        for f, (dt, dflt) in M.item_fields(ic).items():
+            if str(dt) == "object" and isinstance(dflt, (list, dict, set)):
+                # report at the class that declares the field
+                owner = next((k for k in M.mro(ic) if k in M.classes and f in (M._own_props_literal(k) or {})), ic)
+                if (owner, f) in seen:
+                    continue
+                seen.add((owner, f))
+                file = M.mods[M.classes[owner].mod].rel
+                line = M.classes[owner].node.lineno
+                if hook:
+                    insts.append(R.undec("C14.R6", f"{owner.split('.')[-1]}.{f}", file, line,
+                                         "TimedList defines __deepcopy__: whether it copies object cells is decided by C14.R4; the other "
+                                         "list-producing operations are not modelled per cell"))
+                else:
+                    insts.append(R.viol("C14.R6", f"{owner.split('.')[-1]}.{f}", file, line,
+                                        f"cells of '{f}' hold mutable objects ({type(dflt).__name__}) and no list operation copies them: the "
+                                        f"results of deepcopy, rate, sorted, append, between/after/before and move_start_to/move_end_to share "
+                                        f"every note's {f} object with the input (DataFrame.copy(deep=True) copies references only) — "
+                                        f"result.{f}.iloc[0].append(x) changes the input chart",
+                                        construct=f"{owner.split('.')[-1]}.{f}: object cells, mutable, never copied"))
+    if not insts:
+        insts.append(R.ok("C14.R6", "no-mutable-object-cells", "", 0, idiom="no declared field stores mutable objects in its cells"))
+    return insts
+
+
 def _control_r4() -> bool:
     from .hidden import control
     return control()
@@ -237,6 +271,7 @@ SPECS = [
     RuleSpec("C14.R3", rule_r3, 6, "A3", "every chart gets its own list objects (fresh defaults per instance)"),
     RuleSpec("C14.R4", rule_r4, 1, "A8", "no memoised results on editable objects, no class-level memo inherited by subclasses, no sharing copy hooks",
              control=_control_r4),
+    RuleSpec("C14.R6", rule_r6, 1, "A3", "copies of lists whose cells hold mutable objects copy the cells too"),
     RuleSpec("C14.R5", rule_r5, 1, "A3", "no in-place edit of the objects stored in the cells of a (copied) chart frame",
              control=_control_r5),
 ]
